@@ -154,6 +154,28 @@ def processLines (names : List (List Char)) : List (List Char) → List (List Ch
     | .record a b => (f, (a, b) :: r)
     | .forward o => (o :: f, r)
 
+/-! ### what the reference server prints: `internal.NewPrinter` (printer.go, `safePrinter`) -/
+
+/-- `fmt.Sprintf` for the verbs used by the feedback of this check: `%s` takes the next argument as
+it is, `%%` is a per-cent sign; everything else is copied. -/
+def sprintf : List Char → List (List Char) → List Char
+  | '%' :: '%' :: t, args => '%' :: sprintf t args
+  | '%' :: 's' :: t, a :: args => a ++ sprintf t args
+  | c :: t, args => c :: sprintf t args
+  | [], _ => []
+
+def endLine (l : List Char) : List Char := if l.getLast? == some '\n' then l else l ++ ['\n']
+
+/-- `safePrinter.PrefixPrintf(prefix, msg, args…)`: `Fprintf(w, "%s: ", prefix)` — the prefix is an
+ARGUMENT, never part of a format —, then `Fprintf(w, msg, args…)`, then a newline unless the last
+byte written is one.  The reference server prints its per-case feedback this way, with the test-case
+name as prefix (`feedbackPrinter.Printf`). -/
+def prefixPrintf (pre fmt : List Char) (args : List (List Char)) : List Char :=
+  endLine (pre ++ ':' :: ' ' :: sprintf fmt args)
+
+/-- `safePrinter.Printf(msg, args…)` (for a non-empty output) -/
+def printf (fmt : List Char) (args : List (List Char)) : List Char := endLine (sprintf fmt args)
+
 structure Out where
   /-- every `setOutcome` call: (case, class) -/
   log : List (Nat × Class)
